@@ -173,7 +173,7 @@ Definition t_filter (k : tkind) (p : pspec) (inp : bytes) (t : tstate) : bytes :
   match t_pack k p t with
   | Ok raw => match t_unpack k p t_empty raw with
               | (tr, Ok _) => masked tr
-              | _ => inp
+              | _ => pan_filter inp      (* track data that cannot be parsed again: first and last four characters (repair of F31) *)
               end
   | _ => masked t_empty
   end.
